@@ -12,6 +12,7 @@ import Verif.Inv.Slots
 import Verif.Inv.Kernel
 import Verif.Model.Loop
 import Verif.Inv.TokInv
+import Verif.Inv.OwnInv
 
 namespace Verif.Props.C01
 open Verif.Token Verif.Slots Verif.Kernel Verif.Loop
@@ -53,19 +54,19 @@ theorem gate_rejects_sibling (g : Gen) (t : Tok) (i j : Nat) (hg : g.token = som
 /-! ### the whole loop -/
 
 /-- **After every history** of operations, callback programs and dispatches — not aborted by a panic, no generation
-    wrapped on the way (`aliased`, finding F12), no source object inserted twice (`dupInsert`, impossible in Rust) —
+    wrapped on the way (`aliased`, finding F12) —
     a registration token the user was handed resolves, if it resolves at all, to the source it was issued for. -/
 theorem token_reaches_only_its_source (ops : List Verif.Loop.Op) (hab : (Verif.Loop.run ops).aborted = false)
-    (hna : (Verif.Loop.run ops).aliased = false) (hnd : (Verif.Loop.run ops).dupInsert = false)
+    (hna : (Verif.Loop.run ops).aliased = false)
     (k : Nat) (tok : Verif.Token.Tok) (d : Nat) (hk : Verif.Loop.alookup (Verif.Loop.run ops).tokens k = some tok)
     (hd : Verif.Loop.slotDisp (Verif.Loop.run ops) tok = some d) : d = k :=
-  Verif.Inv.TokInv.token_reaches_only_its_source ops hab hna hnd k tok d hk hd
+  Verif.Inv.TokInv.token_reaches_only_its_source ops hab hna (Verif.Inv.OwnInv.never_inserted_twice ops hab) k tok d hk hd
 
 /-- … no dispatcher sits in two slots, and the user's token for the occupant of a slot is that slot's own token -/
 theorem occupants_unique_and_known (ops : List Verif.Loop.Op) (hab : (Verif.Loop.run ops).aborted = false)
-    (hna : (Verif.Loop.run ops).aliased = false) (hnd : (Verif.Loop.run ops).dupInsert = false) :
+    (hna : (Verif.Loop.run ops).aliased = false) :
     Verif.Inv.TokInv.U (Verif.Loop.run ops).slots ∧
     Verif.Inv.TokInv.SP (Verif.Loop.run ops).slots (Verif.Loop.run ops).tokens none :=
-  Verif.Inv.TokInv.occupants_unique_and_known ops hab hna hnd
+  Verif.Inv.TokInv.occupants_unique_and_known ops hab hna (Verif.Inv.OwnInv.never_inserted_twice ops hab)
 
 end Verif.Props.C01
